@@ -21,6 +21,11 @@ func genC16(r *Rnd, t Tier) *Case {
 	c := genC01(r, t)
 	sc := c.Sc
 	sc.Family = "c16"
+	for i := range sc.Policies {
+		if sc.Policies[i].Kind == KBreaker && r.P(0.4) {
+			sc.Policies[i].NoListeners = r.Intn(8) // some specific listeners absent; the generic one stays
+		}
+	}
 	if r.P(0.35) {
 		n := r.Range(1, 2)
 		for i := 0; i < n; i++ {
@@ -267,6 +272,9 @@ func checkC16(c *checkCtx) {
 		state := int64(0)
 		var pending *Event
 		n := 0
+		registered := func(newState int64) bool { // is the specific listener for transitions into newState registered?
+			return p.NoListeners&map[int64]int{1: 1, 2: 2, 0: 4}[newState] == 0
+		}
 		for i := range c.Res.Log.Ev {
 			e := &c.Res.Log.Ev[i]
 			if e.Kind != EvListener || e.Pos != pi || e.L < LBrOpen || e.L > LBrStateChanged {
@@ -284,7 +292,7 @@ func checkC16(c *checkCtx) {
 				continue
 			}
 			n++
-			if pending == nil || pending.A != e.A || pending.B != e.B {
+			if registered(e.B) && (pending == nil || pending.A != e.A || pending.B != e.B) {
 				c.fail("C16.breaker", "unpaired", fmt.Sprintf("breaker %d: OnStateChanged %d->%d without the matching specific listener", pi, e.A, e.B))
 			}
 			pending = nil
@@ -419,6 +427,12 @@ func checkC17(c *checkCtx) {
 				if fnReturning < 0 {
 					fnReturning = 0
 				}
+			}
+		}
+		// the OnHedge event describes the hedged attempt that was just started
+		for _, e := range v.Listeners {
+			if e.L == LHedge && e.Flags&FHasExec != 0 && e.Flags&FHedge == 0 {
+				c.fail("C17.flags", "onhedge", fmt.Sprintf("exec %d: the OnHedge event (Attempts=%d Hedges=%d) reports IsHedge=false", v.ID, e.Attempts, e.Hedges))
 			}
 		}
 		// hedge flag and last result at function starts
